@@ -163,12 +163,17 @@ def check(ctx):
     r2.check(both == ['%s.ctype' % gn], 'C name used whenever present', rel, gan.lineno, 'with a C type name and no GType name the key is %s' % both)
     seps = {}
     pcb = py.func('annotationparser', 'GtkDocCommentBlockParser.parse_comment_block')
-    for t, v, st in P.stores_in(pcb):
-        if isinstance(t, ast.Name) and t.id == 'identifier_name' and isinstance(v, ast.BinOp) and isinstance(v.left, ast.Constant):
-            groups = [P.src(a) for a in (v.right.elts if isinstance(v.right, ast.Tuple) else [v.right])]
-            kind = 'property' if any('property_name' in g for g in groups) else 'signal' if any('signal_name' in g for g in groups) else 'field' if any('field_name' in g for g in groups) else None
-            if kind:
-                seps[kind] = v.left.value
+    PCB = gsa.summarise(ctx, 'annotationparser', 'GtkDocCommentBlockParser.parse_comment_block',
+                        opaque=('_parse_annotations', '_parse_fields', '_parse_annotation', '_parse_annotation_options_list', '_validate_multiline_annotation_continuation'))
+    for e in PCB.effects:
+        for call in ([x for x in ast.walk(e.vnode) if isinstance(x, ast.Call) and P.call_name(x) == 'GtkDocCommentBlock'] if e.vnode is not None and e.kind in ('local', 'store', 'call', 'return') else []):
+            v = call.args[0] if call.args else None
+            if isinstance(v, ast.BinOp) and isinstance(v.left, ast.Constant) and isinstance(v.left.value, str):
+                groups = [gsa._unparse(a_) for a_ in (v.right.elts if isinstance(v.right, ast.Tuple) else [v.right])]
+                kind = 'property' if any("group('property_name')" in g for g in groups) else 'signal' if any("group('signal_name')" in g for g in groups) else \
+                    'field' if any("group('field_name')" in g for g in groups) else None
+                if kind:
+                    seps[kind] = v.left.value
     r2.check(seps == {'property': '%s:%s', 'signal': '%s::%s', 'field': '%s.%s'}, 'parser identifier formats', ap.rel, pcb.lineno, 'parser builds identifiers as %s' % seps, detail=seps)
     sites = []
     for mname, f in methods.items():
